@@ -245,3 +245,52 @@ Proof.
   intros F R. unfold vals. apply Forall_forall. intros q Hq. apply in_map_iff in Hq.
   destruct Hq as [k [Hk Hin]]. subst q. rewrite Forall_forall in F, R. apply F. apply nth_In. apply R. assumption.
 Qed.
+
+(* ------------------------------------------------------------------ the median is well defined *)
+(* the median is the middle of ANY sorted arrangement of the values *)
+Lemma median_of_sorted D v s : Forall (dn D) v -> ssorted s -> Permutation s v ->
+  median_q v = if Nat.even (length v) then (qnth s (Nat.div2 (length v) - 1) + qnth s (Nat.div2 (length v))) / 2
+               else qnth s (Nat.div2 (length v)).
+Proof.
+  intros F S P. unfold median_q.
+  assert (E : isort_q v = s).
+  { apply (sorted_unique D).
+    - apply isort_sorted.
+    - exact S.
+    - eapply Permutation_trans; [apply isort_perm | apply Permutation_sym; exact P].
+    - apply Forall_forall. intros c Hc. apply (Permutation_in _ (isort_perm v)) in Hc.
+      rewrite Forall_forall in F. apply F. assumption. }
+  rewrite E. reflexivity.
+Qed.
+
+(* ------------------------------------------------------------------ one value, two denominators *)
+Lemma den_of_Z E : (E <= 0)%Z -> Z.pos (den_of E) = (2 ^ (- E))%Z.
+Proof.
+  intro H. unfold den_of. destruct (E <? 0)%Z eqn:El.
+  - apply Z.ltb_lt in El. rewrite Pos2Z.inj_pow. rewrite Z2Pos.id by lia. reflexivity.
+  - apply Z.ltb_ge in El. replace E with 0%Z by lia. reflexivity.
+Qed.
+
+(* a column converts every float to the value f2q gives it *)
+Lemma f2q_at_value E f : (E <= 0)%Z -> (E <= fexp f)%Z -> f2q_at E f == f2q f.
+Proof.
+  intros H0 He. unfold f2q, f2q_at, fexp in *.
+  destruct (Prim2SF f) as [s|s| |s m e]; try (unfold Qeq; simpl; reflexivity).
+  set (E' := Z.min 0 e). assert (H0' : (E' <= 0)%Z) by (unfold E'; lia). assert (He' : (E' <= e)%Z) by (unfold E'; lia).
+  unfold Qeq. cbn [Qnum Qden]. rewrite !den_of_Z by assumption.
+  set (num := if s then Z.neg m else Z.pos m).
+  rewrite <- !Z.mul_assoc. f_equal. rewrite <- !Z.pow_add_r by lia. f_equal. lia.
+Qed.
+
+Lemma emin_le v : (emin v <= 0)%Z /\ forall f, In f v -> (emin v <= fexp f)%Z.
+Proof.
+  unfold emin. induction v as [|a t [IH0 IH]]; cbn [fold_right].
+  - split; [lia | intros f []].
+  - split; [lia|]. intros f [Hf|Hf]; [subst; lia | specialize (IH f Hf); lia].
+Qed.
+
+Lemma qcol_value v k : (k < length v)%nat -> nth k (qcol v) 0 == f2q (nth k v nan).
+Proof.
+  intro H. unfold qcol. rewrite (nth_indep _ 0 (f2q_at (emin v) nan)) by (rewrite map_length; exact H).
+  rewrite map_nth. destruct (emin_le v) as [H0 He]. apply f2q_at_value; [exact H0 | apply He, nth_In, H].
+Qed.
